@@ -156,6 +156,9 @@ impl Prop for C04 {
 			"the sequence-size oracle is not applied to IgnoredAny / masked targets, which may skip size-prefixed blocks without counting their elements".into(),
 		]
 	}
+	fn expected_probes(&self) -> Vec<&'static str> {
+		vec!["limit_alloc_size_exceeded_by_valid_input", "limit_depth_exceeded_by_valid_input", "limit_seq_size_exceeded_by_valid_input", "nesting_stream", "reader_scratch_allocation_observed", "slice_success_zero_alloc_confirmed", "valid_input_within_limits"]
+	}
 	fn budget(&self, tier: Tier) -> (u64, u64) {
 		match tier {
 			Tier::Quick => (600_000, 60),
